@@ -43,6 +43,7 @@ def cases(draw):
             "planA": draw(st.one_of(st.none(), st.just(0).map(lambda _: fplan()))), "planB": fplan(),
             "op": draw(st.sampled_from(["overwrite", "update", "update-append"])), "size2": draw(st.integers(1, 3 * seg)),
             "sched": draw(st.lists(st.integers(0, 9), max_size=draw(st.sampled_from([0, 40, 200])))),
+            "keyskip": draw(st.integers(0, 7)),      # which fixture key the file gets, hence its storage index and the servers' permuted order
             "interloper": draw(st.sampled_from([None, None, None, 1])) and {"down": draw(st.lists(st.integers(0, 11), max_size=3)), "gone": draw(st.lists(st.integers(0, 11), max_size=4)), "template": draw(st.sampled_from([0, 1, 2, 3])), "size": draw(st.integers(1, 3 * seg))}}
 
 
@@ -90,6 +91,7 @@ def run_case(case, ctx):
     nserv = len(case["planB"])
     g = Grid(ctx.casedir(), nserv, {"k": k, "n": n, "happy": 1, "max_segment_size": 131072}, choices=case["sched"])
     classes = {fmt}
+    g.c0.keygen.i = case.get("keyskip", 0)
     nt = False
     acked, failed_writes = set(), [0]
 
